@@ -8,13 +8,17 @@ TECH = "solver-based symbolic execution of the real go/ssa (symgo) with SMT (z3)
 NOTE = "trusted: go/ssa, the symgo interpreter + environment models (store/codec/math-big as SMT Int), z3; bounds and stubs are listed in checks/<id>.json and repeated in the evidence file"
 
 CLAIMED = {
+ "C13": ("service fees: oracle CollectFee/feeCollector.Collect over a 2-denom bank (accept iff every cumulative fee stays within limit and balance; exact ledgers; debit never above the limit), bandtss createSigningRequest (fee = fee_per_signer x threshold, escrow, free for authority / no group, fee reject before any transfer, incoming-group request rolled back on failure) and payouts in OnSigningCompleted/OnSigningFailed from an arbitrary escrow state", "DESIGN.md §5 C13, §8"),
+ "C14": ("one AllocateTokens step of x/oracle and x/bandtss and the wrapped bank BurnCoins over symbolic fee pools, powers, percentages, community tax and activity flags: exact conservation per denom, inactive participants get nothing, remainders to proposer / community pool, no negative Sub (no panic)", "DESIGN.md §5 C14, §8"),
+ "C15": ("oracle Activate / MissReport (exact second+nanosecond arithmetic), the pure feeds CheckMissReport / checkHavePrice kernels with all clocks symbolic, SubmitSignalPrices storing block time, and CalculatePrices deactivating only genuinely missed validators", "DESIGN.md §5 C15, §8"),
+ "C16": ("one step of Unstake / Stake / SetLockedPower / DeactivateVault and of the staking hooks (Undelegate, Redelegate, Delegate through AfterDelegationModified / BeforeDelegationRemoved) from an arbitrary restake state: accept iff remaining power >= largest lock of an active vault, exact ledgers, lock index has exactly one entry per lock and orders numerically, deactivated vaults never constrain nor reactivate", "DESIGN.md §5 C16, §8"),
  "C04": ("pkg/tss DKG algebra over the algebraic secp256k1 model: key consistency (group key = sum of a0 commits = image of summed secrets, member keys = image of summed shares), complaint algebra for every dealer/recipient pair of ids 1..3 (DH agreement, decrypt = dealt share, bad share => complaint succeeds, good share => complaint refuted), completeness of the proofs of possession, FindMemberSlot arithmetic for all ids <= 20 and its agreement with the real share placement", "DESIGN.md §5 C04, §8"),
  "C08": ("tunnel packet production: pure kernels GenerateNewPrices/calculateDeviationBPS for all prices and thresholds, one ProduceActiveTunnelPackets end-block step and one TriggerTunnel step through the real keeper from an arbitrary tunnel state (packet iff due and route succeeds, sequence +1, fees charged once, any failure/panic leaves store and balances unchanged)", "DESIGN.md §5 C08, §8"),
  "C17": ("one step of DepositToTunnel / WithdrawFromTunnel / ActivateTunnel / DeactivateTunnel through the real tunnel msg server from an arbitrary deposit state (2 tunnels x 2 depositors x 2 denoms) satisfying the module invariant: accept iff specified, exact ledger deltas, total = sum of records, active flag <=> index, state unchanged on rejection", "DESIGN.md §5 C17, §8"),
  "C01": ("one MsgReportData step and one oracle EndBlocker step through the real msg server / keeper / abci code from an arbitrary stored oracle state satisfying the module invariant (inductive step): accepted iff authorised, pending trigger exactly at min_count, every pending request resolved once with a result mirroring the request, results immutable, expiry prefix in id order, failed/panicking signing creation rolled back", "DESIGN.md §5 C01"),
  "C03": ("one full pkg/tss signing round per enumerated committee over an algebraic secp256k1 model with the real group order: honest shares verify, any other s / R / signer key is rejected, the aggregate verifies under the group key; polynomial, nonces, message and hash outputs symbolic", "DESIGN.md §5 C03"),
  "C09": ("bounded symbolic execution of ChooseOne/ChooseSome/ChooseSomeMaxWeight with every DRBG draw symbolic: size, range, distinctness and equality with an independent sampling-without-replacement reference", "DESIGN.md §5 C09"),
- "C06": ("bounded symbolic execution of MedianValidatorPriceInfos/CalculatePricesPowers from go/ssa against an order-free reference written from the README; all statuses, powers < 2^64, prices and timestamps of up to n entries (n in checks/C06.json)", "DESIGN.md §5 C06"),
+ "C06": ("MedianValidatorPriceInfos against an order-free reference written from the README and a relational oracle (non-AVAILABLE entries have no influence), CalculatePricesPowers, the CalculatePrice status rule, and CalculatePrices over the staking fake; all statuses, powers < 2^64, prices and timestamps of up to n entries (n in checks/C06.json)", "DESIGN.md §5 C06"),
  "C07": ("one MsgVote step through the real feeds and restake keepers from an arbitrary standing-vote state (2 voters x 3 signals): vote <= power as mathematical integers, lock, totals = sum of votes, by-power index order", "DESIGN.md §5 C07"),
 }
 # reasons for the properties not (yet) claimed
